@@ -549,8 +549,8 @@ def run_calls(m, calls, seed, no_prss=False, control=True):
 def part_b(ctx, lines, impl):
     rng = ctx.subrng('B')
     for m in (1, 3):
-        for batch in range(ctx.scale(2, 10)):
-            calls = gen_calls(rng, ctx.scale(120 if m == 1 else 60, 200))
+        for batch in range(ctx.scale(3, 12)):
+            calls = gen_calls(rng, ctx.scale(200 if m == 1 else 100, 300))
             seed = rng.randrange(1 << 30)
             res = run_calls(m, calls, seed)
             for call, (val, flat, tr, agree) in zip(calls, res):
@@ -670,8 +670,8 @@ ALPHA = 1e-9
 
 def part_c(ctx):
     rng = ctx.subrng('C')
-    nbits = ctx.scale(1500, 10000)
-    nsamp = ctx.scale(300, 2000)
+    nbits = ctx.scale(1200, 10000)
+    nsamp = ctx.scale(160, 2000)
     for no_prss in (False, True):
         seed = rng.randrange(1 << 30)
         net = SimNet(3, seed=seed, no_prss=no_prss)
@@ -719,12 +719,15 @@ def part_c(ctx):
                       ('choices_w', [1, 2, 3], [1, 2, 1], 1), ('getrandbits', 3), ('choice', [4, 5, 6, 7, 8])]
         outcomes = {repr(('perm_int', 3)): 6, repr(('derange', 4)): 9, repr(('sample_range', 0, 5, 1, 2)): 20,
                     repr(('sample_list', [1, 2, 3, 4], 2)): 12}
-        calls = []
-        for hc in hist_calls:
-            calls += [hc] * (nsamp // 5 if hc[0] == 'derange' else nsamp // 2 if hc[0].startswith(('sample', 'perm'))
-                             else nsamp)
-        calls += gen_calls(rng, ctx.scale(60, 300))
-        res = run_calls(3, calls, seed, no_prss=no_prss, control=False)
+        calls, res = [], []
+        for hc in hist_calls:        # one net per call kind: keeps the number of concurrent coroutines small
+            cnt = (nsamp // 4 if hc[0] == 'derange' else nsamp // 2 if hc[0].startswith(('sample', 'perm', 'choices'))
+                   else nsamp)
+            calls += [hc] * cnt
+            res += run_calls(3, [hc] * cnt, seed, no_prss=no_prss, control=False)
+        extra = gen_calls(rng, ctx.scale(40, 300))
+        calls += extra
+        res += run_calls(3, extra, seed + 1, no_prss=no_prss, control=False)
         hist = collections.defaultdict(collections.Counter)
         for call, (val, _flat, _tr, agree) in zip(calls, res):
             ctx.count(f'C:{call[0]}:prss={not no_prss}')
